@@ -49,9 +49,57 @@ func c03RacePass(c c03Case, st *fw.Stats) []fw.Viol {
 		Requests   int64    `json:"requests"`
 		Mismatches int64    `json:"mismatches"`
 		First      []string `json:"first_mismatches"`
+		Stuck      bool     `json:"stuck"`
+		Shape      string   `json:"shape"`
 	}
 	if err := json.Unmarshal(bytes.TrimSpace(out.Bytes()), &res); err != nil {
-		panic(fmt.Sprintf("race pass produced no result (%v, %v): %s", runErr, err, tail(errb.String(), 2000)))
+		// the free-running process died: a Go runtime "fatal error" (concurrent map access, corrupted memory) or an
+		// unrecovered panic with rux on the stack is what concurrent requests did to the router
+		es := errb.String()
+		if i := strings.Index(es, "fatal error:"); i >= 0 && strings.Contains(es[i:], "gookit/rux") {
+			line := es[i:]
+			if j := strings.IndexByte(line, '\n'); j > 0 {
+				line = line[:j]
+			}
+			sig := "crash:free-running"
+			if strings.Contains(line, "concurrent map") {
+				sig = "race:concurrent-map-access"
+			}
+			return []fw.Viol{{Sig: sig, Msg: fmt.Sprintf("free-running pass: the process serving concurrent requests died with %q; %s", line, tail2(es[i:], 1800))}}
+		}
+		if i := strings.Index(es, "panic:"); i >= 0 && strings.Contains(es[i:], "gookit/rux.") {
+			return []fw.Viol{{Sig: "crash:free-running", Msg: fmt.Sprintf("free-running pass: the process serving concurrent requests died with an unrecovered panic outside any request's own recovery: %s", tail2(es[i:], 1800))}}
+		}
+		panic(fmt.Sprintf("race pass produced no result (%v, %v): %s", runErr, err, tail(es, 2000)))
+	}
+	if res.Stuck {
+		// the pass's own watchdog: not a single request completed for two minutes. It counts as a deadlock among the
+		// requests when the goroutine dump shows requests parked inside rux; otherwise it is only noted.
+		dump := errb.String()
+		if i := strings.Index(dump, "NO-PROGRESS"); i >= 0 {
+			dump = dump[i:]
+		}
+		var parked []string
+		for _, g := range strings.Split(dump, "\n\n") {
+			if strings.Contains(g, "gookit/rux.") && (strings.Contains(g, "[sync.") || strings.Contains(g, "[semacquire") || strings.Contains(g, "[chan ") || strings.Contains(g, "[select")) {
+				lines := strings.Split(g, "\n")
+				var fr []string
+				for _, l := range lines {
+					if strings.Contains(l, "gookit/rux.") || strings.HasPrefix(l, "goroutine ") || strings.HasPrefix(l, "sync.") {
+						fr = append(fr, strings.TrimSpace(l))
+					}
+				}
+				if len(parked) < 3 {
+					parked = append(parked, strings.Join(fr[:min(len(fr), 6)], " <- "))
+				}
+			}
+		}
+		if len(parked) == 0 {
+			st.Cap("the free-running pass stalled for 120 s without any request parked inside rux (machine stall?): not counted")
+			return nil
+		}
+		st.Evals += res.Requests
+		return []fw.Viol{{Sig: "deadlock:free-running", Msg: fmt.Sprintf("free-running pass: after %d requests on shape{%s} no request completed for 120 s; requests are parked inside rux and never resume (a deadlock among concurrent requests), e.g. %s", res.Requests, res.Shape, strings.Join(parked, " ## "))}}
 	}
 	st.Evals += res.Requests
 	st.Inc("race_pass_requests", res.Requests)
